@@ -15,6 +15,8 @@ C32 driver.  One op per line:
   import {<hexdir> <hexfile|!> (A <n> <hexarg>*n | C <hexcmd> | N)}*
                                       -> rc <0|1> errs <n> { || P <hexpath> id <n> | <fs line> }*   or  oob
   normal <hexdef>*                    -> <hex> defok <0|1>           (`Spec.normal`)
+  render {<I|S|D|U|T|F|P|O>:<joined 0|1>:<hex>[:<hex>]}*
+                                      -> <hexarg>* | <fs line of `meaning`> | wf <0|1>   (`render`, `meaning`, `Opt.wf`)
 A <list> is "." when empty, else comma separated hex items.
 -/
 namespace Driver.C32
@@ -85,6 +87,32 @@ def importStr (es : List Entry) : String :=
   "rc " ++ boolStr r.ok ++ " errs " ++ toString r.errors ++
     String.join (r.files.map fun x => " || P " ++ toHex x.path ++ " id " ++ toString x.fileId ++ " | " ++ fsStr x.fs)
 
+def optItems : List String → Option (List Opt)
+  | [] => some []
+  | s :: r =>
+    match optItems r with
+    | none => none
+    | some t =>
+      match s.splitOn ":" with
+      | [k, j, h] =>
+        match fromHex h with
+        | none => none
+        | some v =>
+          let jn := j == "1"
+          if k == "I" then some (.inc v jn :: t)
+          else if k == "S" then some (.sysinc v jn :: t)
+          else if k == "D" then some (.define v jn :: t)
+          else if k == "U" then some (.undef v jn :: t)
+          else if k == "T" then some (.std v :: t)
+          else if k == "F" then some (.flag v :: t)
+          else if k == "O" then some (.other v :: t)
+          else none
+      | [k, _, h, h2] =>
+        match fromHex h, fromHex h2 with
+        | some o, some v => if k == "P" then some (.sepOther o v :: t) else none
+        | _, _ => none
+      | _ => none
+
 def step (line : String) : String :=
   match fields line with
   | "split" :: [h] =>
@@ -130,6 +158,11 @@ def step (line : String) : String :=
   | "import" :: toks =>
     match parseEntries (toks.length + 1) toks with
     | some es => importStr es
+    | none => "bad-op"
+  | "render" :: items =>
+    match optItems items with
+    | some l =>
+      " ".intercalate ((render l).map toHex) ++ " | " ++ fsStr (meaning l {}).toFS ++ " | wf " ++ boolStr (l.all Opt.wf)
     | none => "bad-op"
   | "normal" :: hs =>
     match hexAll hs with
